@@ -20,6 +20,7 @@ def tasks(tier):
     lists = [LC.ListLemmaTask("C01/"), LC.EncodeItemsTask("PDU"), LC.EncodeItemsTask("PDUItem")]
     lists += [LC.SplitFramingTask(k) for k in LC.SPLITTERS]
     lists += [LC.WrapGenerateItemsTask("PDU"), LC.WrapGenerateItemsTask("PDUItem")]
+    lists += [LC.LengthTask(fn) for fn in LC.LENGTHS]
     return codec.layout_tasks("C01/") + codec.primitive_tasks("C01/") + lists
 
 
@@ -32,6 +33,8 @@ LEVEL_TEXT = ("For each of the 7 PDUs and 17 item/sub-item classes the real enco
               "tables, lazy generator decoders included) are executed symbolically on a well-formed symbolic value; the bytes are "
               "proved equal to the PS3.8 layout field by field, every length field to the size of what it covers, and "
               "decode(encode(v)) to restore every field.")
-LEVEL_NOTE = ("trusted: pyvc + layout algebra, z3, spec/ps38_layout.py, string-helper contracts (C12). List multiplicities 0..2 "
-              "per container (values/lengths unbounded).")
+LEVEL_NOTE = ("trusted: pyvc + layout algebra, z3, spec/ps38_layout.py, string-helper contracts (C12). The container tasks execute lists of 0..2 positions (values/lengths "
+              "unbounded); the step to ANY number of items is contracts/listcodec.py: the encode, split, decode and length loops "
+              "verified by induction with the items abstracted by their per-item contracts (list lemmas MONO/SUB proved by "
+              "induction); the composition of the two is an argument, not one machine-checked theorem.")
 TECHNIQUE = "deductive: symbolic execution of the real codec tables over a layout algebra, segment-wise VCs vs PS3.8 transcription (z3)"
